@@ -96,6 +96,8 @@ class CFG:
                         break
             if stopped:
                 continue
+            if blk.get("term") is not None and blk.get("term") in blocked:
+                continue        # blocked terminator statement (continue / break / goto are terminators, not elements)
             if b == self.exit:
                 if to_exit:
                     return list(path)
